@@ -174,7 +174,9 @@ def _min_bells(r=None):
     wreg.calculate_regression = rec
     try:
         if r is None:
-            r = wmain.create_rhythm(180, 0.0, 15, 1.0, False, 0.0)
+            from harness import climain
+            r = climain.make_rhythm(peal_speed=180, inertia=0.0, max_bells_in_dataset=15, handstroke_gap=1.0,
+                                    use_wait=False, initial_inertia=0.0)
         r.initialise_line(8, False, 1003.0, 7)
         for p in range(1, 8):
             b = Bell.from_number(p + 1)
